@@ -53,7 +53,47 @@ pub fn check_source_budget(src: &str, t: &Table, budget: u64) -> Result<Checked,
     Ok(Checked { compiled: true, nontrivial: v.cond_jumps >= 1 && (v.units >= 2 || v.back_edges >= 1), unbounded: v.unbounded_growth, code_hash: h })
 }
 
+/// A session on a retained compiler and machine: the code of every line is verified on all paths (it follows the code of
+/// the earlier lines in one buffer, and its functions may be called by later lines) and run under the probes.
+pub fn check_session_lines(lines: &[crate::props::c17::Line]) -> Result<usize, Fail> {
+    let case = crate::props::c17::session_json(lines);
+    let mut s = crate::engine::session_begin();
+    s.verify = Some(Table::load());
+    let mut bad: Option<Fail> = None;
+    for (i, l) in lines.iter().enumerate() {
+        let o = s.line(&l.text(), l.cut.unwrap_or(crate::props::c17::BUDGET));
+        if let Some(e) = o.events.iter().find(|e| e.starts_with("probe")) {
+            bad = Some((format!("session:{}", e.split(" at ").next().unwrap_or("probe")), case.clone(), format!("line {i} runs inside the machine's own memory"), o.render()));
+            break;
+        }
+        if let Outcome::Trap(m) = &o.outcome {
+            if m.starts_with("probe") {
+                bad = Some((format!("session:{}", m.split(" at ").next().unwrap_or("probe")), case.clone(), format!("line {i} runs inside the machine's own memory"), o.render()));
+                break;
+            }
+        }
+        if o.outcome.is_crash() {
+            bad = Some((format!("session:crash:{}", crate::diff::crash_class(&o.outcome)), case.clone(), format!("line {i}: no crash"), o.render()));
+            break;
+        }
+    }
+    let findings = std::mem::take(&mut s.findings);
+    s.end();
+    crate::engine::install_gc_observer();
+    if let Some((line, class, detail)) = findings.into_iter().next() {
+        return Err((format!("session:verifier:{class}"), case, format!("the bytecode of line {line} is well-formed on every path"), detail));
+    }
+    match bad {
+        Some(f) => Err(f),
+        None => Ok(lines.len()),
+    }
+}
+
 pub fn replay(case: &Value) -> Option<Violation> {
+    if case.get("session").is_some() {
+        let lines = crate::props::c17::lines_from_json(case)?;
+        return check_session_lines(&lines).err().map(|f| Violation { property: "C02".into(), driver: "replay".into(), class: f.0, case: case.clone(), expected: f.2, observed: f.3 });
+    }
     let t = Table::load();
     let src = case.get("src")?.as_str()?;
     check_source(src, &t).err().map(|f| Violation { property: "C02".into(), driver: "replay".into(), class: f.0, case: case.clone(), expected: f.2, observed: f.3 })
@@ -146,6 +186,7 @@ pub fn run_check(ctx: &Ctx) -> Report {
         "every generated program that compiles (profiles general, control, calls), 1-4 token-level edits (delete / duplicate / swap / replace by a vocabulary token) of such programs that still compile, and random token sequences that compile: \
          (a) a bytecode verifier checks ALL paths of the compiler's output - linear decode, code units (top level + every function constant), stack-height intervals with widening (no pop below the unit's locals on any path), \
          jump targets on instruction boundaries inside the same unit, no falling off the end, Return only in functions / Halt only at top level, constant / local / global / builtin numbers in range; \
+         (c) generated sessions (C17's generator: up to 13 lines incl. lines that fail to parse / compile / run) on one retained compiler and machine: the code of every line is verified the same way and run under the probes; \
          (b) the program is run with probes at every unchecked access of the VM (pop, opcode and operand fetch incl. instruction boundaries, Call, CallBuiltin). \
          non-trivial = bytecode with >=1 conditional jump and a function unit or a loop back-edge; distinct by bytecode",
     );
@@ -233,6 +274,7 @@ pub fn run_check(ctx: &Ctx) -> Report {
         }
     }
     let cases = ctx.pick(600_000u32, 12_000_000u32) / ctx.shards as u32;
+    let sessions = ctx.pick(40_000u32, 1_000_000u32) / ctx.shards as u32;
     let seed = ctx.seed;
     par_shards(ctx.shards, rep, move |shard, r| {
         let table = Table::load();
@@ -303,6 +345,26 @@ pub fn run_check(ctx: &Ctx) -> Report {
                     }
                 }
                 r.violation(Violation { property: "C02".into(), driver: "generated".into(), class: best.0, case: best.1, expected: best.2, observed: best.3 });
+            }
+        }
+        // sessions: lines compiled one after the other by ONE compiler (failing lines in between) and run by ONE machine
+        let fail = run_tapes(seed.wrapping_mul(122_949_829) + shard as u64, sessions, 300, |tape, shrinking| {
+            let lines = crate::props::c17::gen_session(tape);
+            if !shrinking {
+                r.eval();
+                r.count("sessions");
+                r.nontrivial(&format!("session:{lines:?}"));
+            }
+            check_session_lines(&lines).map(|_| ()).map_err(|f| f.0)
+        });
+        if let Some((tape, _)) = fail {
+            let lines = crate::props::c17::gen_session(&tape);
+            if let Err(f) = check_session_lines(&lines) {
+                let cls = f.0.clone();
+                let small = crate::props::c17::minimize_session(&lines, &mut |l| matches!(check_session_lines(l), Err(g) if g.0 == cls));
+                if let Err(f) = check_session_lines(&small) {
+                    r.violation(Violation { property: "C02".into(), driver: "sessions".into(), class: f.0, case: f.1, expected: f.2, observed: f.3 });
+                }
             }
         }
     })
